@@ -694,22 +694,16 @@ class Watcher(object):
 
         The signal is sent to the process itself then to all the children
         """
-        children = None
         try:
             # getting the process children
             children = process.children(recursive=recursive)
-
-            # sending the signal to the process itself
-            self.send_signal(process.pid, signum)
-            self.notify_event("kill", {"process_pid": process.pid,
-                                       "time": time.time()})
         except NoSuchProcess:
             # already dead !
-            if children is None:
-                return
+            return
 
-        # now sending the same signal to all the children
-        for child_pid in children:
+        # sending the signal to the children first, deepest ones first: they
+        # are found through their parents, which must still be there
+        for child_pid in reversed(children):
             try:
                 process.send_signal_child(child_pid, signum)
                 self.notify_event("kill", {"process_pid": child_pid,
@@ -717,6 +711,15 @@ class Watcher(object):
             except NoSuchProcess:
                 # already dead !
                 pass
+
+        # now sending the same signal to the process itself
+        try:
+            self.send_signal(process.pid, signum)
+            self.notify_event("kill", {"process_pid": process.pid,
+                                       "time": time.time()})
+        except NoSuchProcess:
+            # already dead !
+            pass
 
     @gen.coroutine
     @util.debuglog
